@@ -309,8 +309,12 @@ pub fn peer_params_cid_auth_native(server: bool, which: u8) -> u32 {
 /// Native replay body for the E2 query `e2_migrate` (C15): after `Connection::migrate` the new path
 /// is unvalidated and carries a pending challenge; the path to return to when validation fails is
 /// replaced only by a path that was not itself awaiting validation.
-pub fn migrate_native(old_challenged: bool, old_pending: bool, v4: bool) -> u32 {
+pub fn migrate_native(old_challenged: bool, old_pending: bool, v4: bool, big_peer: bool) -> u32 {
     let mut conn = mk_conn(true, true);
+    if big_peer {
+        // a peer limit beyond u16 saturates, it does not wrap (66236 mod 65536 = 700)
+        conn.peer_params.max_udp_payload_size = VarInt::from_u32(66236);
+    }
     let now = crate::verif::mk_instant(51, 0).unwrap();
     // the original, validated path the connection may have to return to
     let original = PathData::new(addr(9, 9), false, None, 0, now, &conn.config);
@@ -326,6 +330,7 @@ pub fn migrate_native(old_challenged: bool, old_pending: bool, v4: bool) -> u32 
     let new_remote = if v4 { addr(1, 5555) } else { SocketAddr::new(IpAddr::V6(std::net::Ipv6Addr::new(0x2001, 0xdb8, 0, 0, 0, 0, 0, 1)), 1111) };
     conn.migrate(now, new_remote);
     assert!(conn.path.remote == new_remote);
+    assert!(conn.path.current_mtu() >= 1200, "MTU estimate of the new path {} is below the minimum although the peer allows more", conn.path.current_mtu());
     assert!(!conn.path.validated, "a path created by migration starts validated");
     assert!(conn.path.challenge.is_some() && conn.path.challenge_pending, "no challenge pending on the new path");
     assert!(conn.timers.get(Timer::PathValidation).is_some(), "path validation timer not armed");
